@@ -1,5 +1,5 @@
 (* C12 - Size and range limits are exact; accepted values are never altered to fit. *)
-From Ctap Require Import Base Schema Wire Utf8 Typed WellTyped Procs Inst Tables Limits WireP TypedP FramingP SerP RoundTripP ObRequestSide ObEnvRt.
+From Ctap Require Import Base Schema Wire Utf8 Typed WellTyped Procs Inst Tables Limits WireP TypedP FramingP SerP RoundTripP ObRequestSide ObEnvRt FnShapes Shapes ObShapeStrings ObShapeFilters.
 Local Open Scope string_scope.
 Local Open Scope Z_scope.
 
@@ -81,6 +81,13 @@ Proof. exact generated_request_side. Qed.
 Example c12_ex : blen [1; 2; 3] < 4294967296 /\ (64 <? blen [1; 2; 3]) = false.
 Proof. vm_compute. split; reflexivity. Qed.
 
+(* tie to the source for the hand-modelled procedural code: the bodies of these functions, as regenerated from
+   /repo now, have the shape (literals, operators, calls, control flow, constants) the model was written against *)
+Theorem c12_modelled_functions_unchanged_strings : shapes_hold fn_shapes shapes_strings = true.
+Proof. exact generated_shapes_strings. Qed.
+Theorem c12_modelled_functions_unchanged_filters : shapes_hold fn_shapes shapes_filters = true.
+Proof. exact generated_shapes_filters. Qed.
+
 Eval vm_compute in "ASSUMPTIONS c12_limits_generated". Print Assumptions c12_limits_generated.
 Eval vm_compute in "ASSUMPTIONS c12_limits_spec". Print Assumptions c12_limits_spec.
 Eval vm_compute in "ASSUMPTIONS c12_bytes_exact". Print Assumptions c12_bytes_exact.
@@ -94,3 +101,5 @@ Eval vm_compute in "ASSUMPTIONS c12_i32_out_of_range". Print Assumptions c12_i32
 Eval vm_compute in "ASSUMPTIONS c12_generated_conforms". Print Assumptions c12_generated_conforms.
 Eval vm_compute in "ASSUMPTIONS c12_count_exact". Print Assumptions c12_count_exact.
 Eval vm_compute in "ASSUMPTIONS c12_accepted_values_unaltered". Print Assumptions c12_accepted_values_unaltered.
+Eval vm_compute in "ASSUMPTIONS c12_modelled_functions_unchanged_strings". Print Assumptions c12_modelled_functions_unchanged_strings.
+Eval vm_compute in "ASSUMPTIONS c12_modelled_functions_unchanged_filters". Print Assumptions c12_modelled_functions_unchanged_filters.
